@@ -99,7 +99,8 @@ def _plan(prop, q, n):
         extra = []
         if not q:  # the shipped flags (-O2 -DNDEBUG, no sanitizer)
             extra = [storm(NORMAL, 100000, n, 0, 32, "rel20")]
-        return extra + [storm(NORMAL, 30000 if q else 300000, n, 0, 24 if q else 40),
+        return extra + [storm(SIZE, 8000 if q else 80000, n, 0, 20 if q else 32),
+                        storm(NORMAL, 30000 if q else 300000, n, 0, 24 if q else 40),
                 storm(NORMAL, 12500 if q else 125000, n, 1, 24 if q else 40)]
     if prop == "C02":
         st = [storm(ALL, 25000 if q else 250000, n, 1, 24 if q else 40)]
